@@ -36,7 +36,7 @@ func leavesC03() []*qast.Node {
 	for _, v := range []string{"5", "-5", "0", "9223372036854775807", "-9223372036854775808"} {
 		eq("n", qast.I(v))
 	}
-	for _, v := range []string{"0.5", "1.25", "0.001", "-2.75"} {
+	for _, v := range []string{"0.5", "1.25", "0.001", "-2.75", "0.0078125", "0.0000001", "12345678.5", "123456.789012345"} {
 		eq("n", qast.F(v))
 	}
 	eq("s", qast.W("word"))
@@ -48,6 +48,7 @@ func leavesC03() []*qast.Node {
 	for _, k := range []string{qast.LGt, qast.LGe, qast.LLt, qast.LLe} {
 		ls = append(ls, L(qast.Leaf{Kind: k, Field: "n", Val: qast.I("5")}))
 		ls = append(ls, L(qast.Leaf{Kind: k, Field: "n", Val: qast.F("1.25")}))
+		ls = append(ls, L(qast.Leaf{Kind: k, Field: "n", Val: qast.F("0.0078125")}))
 		ls = append(ls, L(qast.Leaf{Kind: k, Field: "s", Val: qast.W("m")}))
 		ls = append(ls, L(qast.Leaf{Kind: k, Field: "s", Val: qast.Q("m n")}))
 	}
@@ -73,6 +74,9 @@ func leavesC03() []*qast.Node {
 	ls = append(ls, L(qast.Leaf{Kind: qast.LList, Field: "n", List: []qast.Value{qast.I("1"), qast.I("2")}}))
 	ls = append(ls, L(qast.Leaf{Kind: qast.LList, Field: "n", List: []qast.Value{qast.I("1"), qast.I("-2"), qast.I("3")}}))
 	ls = append(ls, L(qast.Leaf{Kind: qast.LList, Field: "n", List: []qast.Value{qast.F("0.5"), qast.F("1.25")}}))
+	ls = append(ls, L(qast.Leaf{Kind: qast.LList, Field: "n", List: []qast.Value{qast.F("0.0078125"), qast.I("7")}}))
+	ls = append(ls, L(qast.Leaf{Kind: qast.LList, Field: "n", List: []qast.Value{qast.I("1"), qast.I("2"), qast.I("3"), qast.I("4"), qast.I("5")}}))
+	ls = append(ls, L(qast.Leaf{Kind: qast.LList, Field: "s", List: []qast.Value{qast.W("p"), qast.W("q"), qast.W("r"), qast.Q("s t")}}))
 	ls = append(ls, L(qast.Leaf{Kind: qast.LList, Field: "s", List: []qast.Value{qast.W("x"), qast.W("y")}}))
 	ls = append(ls, L(qast.Leaf{Kind: qast.LList, Field: "s", List: []qast.Value{qast.Q("a b"), qast.Q("it's"), qast.W("z")}}))
 	for _, p := range []string{"w*", "*w", "w?x", "*", "?", "a*b*c", "x_y*", "?*"} {
